@@ -257,6 +257,11 @@ def _compare(rec, bad, sh, res, want, int_only, what):
     rec.arm(f"eval:{regime}:{what}")
     for k in kinds:
         rec.arm(f"evalop:{regime}:{k}")
+    if want.ill and not int_only:
+        # a divisor / power base / sgn argument that is tiny relative to its own scale: the
+        # floating-point result (even 0 -> nan) legitimately differs from the exact one
+        rec.skip("eval: ill-conditioned sample")
+        return
     if rv is None:
         if _isnan(res) or (isinstance(res, float) and math.isinf(res)):
             if not want.approx and abs(want.v) > Fraction(10) ** 150:
